@@ -680,8 +680,15 @@ func evalScenario(worker, prop string, sc map[string]interface{}, race bool, han
 // frame's package-level function name without the line.
 func hangFrame(stack, fn string) string { return fn }
 
+func outDir() string {
+	if d := os.Getenv("VERIF_OUT"); d != "" {
+		return d
+	}
+	return verifDir
+}
+
 func writeReplay(prop, class, sig string, sc map[string]interface{}) string {
-	dir := filepath.Join(verifDir, "replays")
+	dir := filepath.Join(outDir(), "replays")
 	os.MkdirAll(dir, 0755)
 	h := sha256.Sum256([]byte(class + "|" + sig))
 	path := filepath.Join(dir, fmt.Sprintf("%s-%s-%x.json", prop, sanitize(class), h[:4]))
